@@ -393,6 +393,15 @@ def Walker.compactStep (w : Walker Node) : WR (Node × Walker Node) :=
         | _, _ =>
           .ok (if bit then H.internal sibling node else H.internal node sibling, w)
 
+/-- "save the final relevant sibling": in the last round the node about to be overwritten goes on the sibling stack -/
+def Walker.saveSibling (w : Walker Node) (last : Bool) : WR (Walker Node) :=
+  if last then
+    match w.node H with
+    | .panic s => .panic s
+    | .err e => .err e
+    | .ok n => .ok { w with siblingStack := w.siblingStack ++ [(n, w.position.depth)] }
+  else .ok w
+
 /-- the `for i in 0..compact_layers` loop of `compact_up` (`i` counts up, `n` = remaining iterations) -/
 def Walker.compactLoop : Nat → Nat → Nat → Walker Node → WR (Walker Node)
   | 0, _, _, w => .ok w
@@ -409,14 +418,7 @@ def Walker.compactLoop : Nat → Nat → Nat → Walker Node → WR (Walker Node
           if w.parentPage.isNone then .ok { w with root := next }
           else .ok { w with childPageRoots := w.childPageRoots ++ [(w.position, next)] }
         else
-          let r : WR (Walker Node) :=
-            if i = layers - 1 then
-              match w.node H with
-              | .panic s => .panic s
-              | .err e => .err e
-              | .ok n => .ok { w with siblingStack := w.siblingStack ++ [(n, w.position.depth)] }
-            else .ok w
-          match r with
+          match w.saveSibling H (decide (i = layers - 1)) with
           | .panic s => .panic s
           | .err e => .err e
           | .ok w =>
